@@ -36,6 +36,20 @@ Clause(ev, outs, lo, lv) ==
     ELSE IF ~\E o \in outs : o.order = lo /\ o.vals = lv THEN "content_not_allowed"
     ELSE "result_and_state_not_jointly_allowed"
 
+\* observation records made right after the call (random histories): [k |-> kind, ...]; judged against the LOGGED state
+ObsOk(st, o) ==
+    CASE o.k = "at"       -> o.r = ObsAt(st, o.i)
+      [] o.k = "value_at" -> o.r = ObsValueAt(st, o.i)
+      [] o.k = "index"    -> o.r = ObsIndex(st, o.key)
+      [] o.k = "getitem"  -> o.r = ObsGetItem(st, o.key)
+      [] o.k = "get"      -> o.r = ObsGet(st, o.key, o.d)
+      [] o.k = "contains" -> o.v = ObsContains(st, o.key)
+      [] o.k = "keys"     -> o.ks = ObsKeys(st)
+      [] o.k = "values"   -> o.vs = ObsValues(st)
+      [] o.k = "len"      -> o.n = Len(st.order)
+      [] o.k = "eq_copy"  -> o.v                       \* the map equals a plain dict with the same content, and a copy of itself
+ObsOf(ev) == IF "obs" \in DOMAIN ev THEN ev.obs ELSE <<>>
+
 \* Single pass: a step that is not allowed by the model prints one REJECT line naming the clause and
 \* the validation re-synchronises on the logged state, so every later event is still judged.
 TNext ==
@@ -45,10 +59,13 @@ TNext ==
            lv   == LoggedVals(ev)
            outs == Outcomes(Cur, ev)
            good == \E o \in outs : o.res = ev.r /\ o.order = lo /\ o.vals = lv
+           st   == [order |-> lo, vals |-> lv]
+           B    == IF NoDup(lo) THEN {i \in 1..Len(ObsOf(ev)) : ~ObsOk(st, ObsOf(ev)[i])} ELSE {}
        IN /\ ~good => PrintT(<<"REJECT", tid, l, Clause(ev, outs, lo, lv)>>)
+          /\ B # {} => PrintT(<<"REJECT", tid, l, "obs_" \o ObsOf(ev)[CHOOSE i \in B : \A j \in B : i <= j].k>>)
           /\ order' = lo /\ vals' = lv /\ op' = [name |-> ev.name] /\ res' = ev.r
           /\ l' = l + 1
-          /\ nrej' = nrej + (IF good THEN 0 ELSE 1)
+          /\ nrej' = nrej + (IF good /\ B = {} THEN 0 ELSE 1)
           /\ (l = Len(tr) => PrintT(<<IF nrej' = 0 THEN "ACCEPT" ELSE "DONE", tid, nrej'>>))
     /\ UNCHANGED <<tid, tr>>
 
